@@ -685,3 +685,122 @@ func TestVerifRelayUDP(t *testing.T) {
 	}
 	out.stats(map[string]int{"histories": n})
 }
+
+// eofDataConn is a downstream transport that, as the io.Reader contract allows (and crypto/tls does when the last record and
+// close_notify arrive together), returns its final bytes together with io.EOF.
+type eofDataConn struct {
+	mu      sync.Mutex
+	chunks  [][]byte
+	written []byte
+}
+
+func (c *eofDataConn) Read(p []byte) (int, error) {
+	c.mu.Lock()
+	defer c.mu.Unlock()
+	if len(c.chunks) == 0 {
+		return 0, io.EOF
+	}
+	n := copy(p, c.chunks[0])
+	if n < len(c.chunks[0]) {
+		c.chunks[0] = c.chunks[0][n:]
+		return n, nil
+	}
+	c.chunks = c.chunks[1:]
+	if len(c.chunks) == 0 {
+		return n, io.EOF
+	}
+	return n, nil
+}
+func (c *eofDataConn) Write(p []byte) (int, error) {
+	c.mu.Lock()
+	defer c.mu.Unlock()
+	c.written = append(c.written, p...)
+	return len(p), nil
+}
+func (c *eofDataConn) Close() error                     { return nil }
+func (c *eofDataConn) LocalAddr() net.Addr              { return &net.TCPAddr{IP: net.IPv4(127, 0, 0, 1), Port: 443} }
+func (c *eofDataConn) RemoteAddr() net.Addr             { return &net.TCPAddr{IP: net.IPv4(127, 0, 0, 1), Port: 40002} }
+func (c *eofDataConn) SetDeadline(time.Time) error      { return nil }
+func (c *eofDataConn) SetReadDeadline(time.Time) error  { return nil }
+func (c *eofDataConn) SetWriteDeadline(time.Time) error { return nil }
+
+// TestVerifRelayEOF: the client's last bytes arrive together with end-of-stream.  Every upstream must still receive the whole
+// stream.  Oracle only.
+func TestVerifRelayEOF(t *testing.T) {
+	out := vopen(t, "relayeof")
+	defer out.close()
+	ctx, cancel := caddy.NewContext(caddy.Context{Context: context.Background()})
+	defer cancel()
+	var ups []*relayUp
+	var dial []string
+	for i := 0; i < 2; i++ {
+		u := newRelayUp(t, false, "", i)
+		defer u.ln.Close()
+		ups = append(ups, u)
+		dial = append(dial, u.dial)
+	}
+	handlers := map[int]*Handler{}
+	for k := 1; k <= 2; k++ {
+		h := &Handler{Upstreams: UpstreamPool{&Upstream{Dial: dial[:k]}}}
+		if err := h.Provision(ctx); err != nil {
+			t.Fatal(err)
+		}
+		handlers[k] = h
+	}
+	r := &vrng{vseed()*67867967 + 19}
+	n := vcount(30)
+	nfail := 0
+	for idx := 0; idx < n && nfail < 3; idx++ {
+		k := r.pick(1, 1, 2)
+		pre := mkRelayChunk(0, 200, r.next(), r.pick(0, 0, 1, 50, 3000))
+		var chunks [][]byte
+		sentC := append([]byte{}, pre.b...)
+		for j := r.pick(1, 1, 2, 3); j > 0; j-- {
+			c := mkRelayChunk(0, 200, r.next(), r.pick(1, 12, 700, 16384, 40000)).b
+			chunks = append(chunks, c)
+			sentC = append(sentC, c...)
+		}
+		fmt.Fprintf(out.cases, "relayeof k=%d pre=%d chunks=%d total=%d\n", k, len(pre.b), len(chunks), len(sentC))
+		results := make([]*relayUpResult, k)
+		for i := 0; i < k; i++ {
+			results[i] = &relayUpResult{done: make(chan struct{})}
+			ups[i].mu.Lock()
+			ups[i].script, ups[i].res = &relayUpScript{resetAfter: -1, delay: func() {}}, results[i]
+			ups[i].mu.Unlock()
+		}
+		down := &eofDataConn{chunks: chunks}
+		cx := layer4.WrapConnection(down, append(make([]byte, 0, len(pre.b)+16), pre.b...), zap.NewNop())
+		ret := make(chan error, 1)
+		go func() { ret <- handlers[k].Handle(cx, nil) }()
+		returned := false
+		select {
+		case <-ret:
+			returned = true
+		case <-time.After(5 * time.Second):
+		}
+		ok := returned
+		if !returned {
+			nfail++
+			out.fail(idx, "handler-not-returned", "Handle did not return within 5 s after the client's stream ended")
+		}
+		for i := 0; i < k; i++ {
+			select {
+			case <-results[i].done:
+			case <-time.After(2 * time.Second):
+			}
+			if got := results[i].got; !bytes.Equal(got, sentC) {
+				ok = false
+				nfail++
+				out.fail(idx, "upstream-stream", fmt.Sprintf("upstream %d received %d of the client's %d bytes: the bytes delivered together with end-of-stream (last chunk of %d) are missing or wrong (first difference at %d)", i, len(got), len(sentC), len(chunks[len(chunks)-1]), firstDiff(sentC, got)))
+			}
+		}
+		fmt.Fprintf(out.out, "ok=%v\n", ok)
+		out.cases.Flush()
+		out.out.Flush()
+		out.orc.Flush()
+		if !returned {
+			break
+		}
+	}
+	out.stats(map[string]int{"histories": n})
+}
